@@ -5,6 +5,7 @@ import types
 from symx.api import *
 
 PROPERTY = 'C09'
+INSTRUMENT = dict(prefixes=('mesonbuild.',), exact=('mesonbuild', 'configparser'))          # recorded-values executes the stdlib parser of cmd_line.txt symbolically
 LEVEL = 'model_checking'
 FILES = ['mesonbuild/coredata.py', 'mesonbuild/cmdline.py', 'mesonbuild/build.py', 'mesonbuild/utils/universal.py', 'mesonbuild/environment.py', 'mesonbuild/msetup.py', 'mesonbuild/mconf.py']
 ENCODED = ['coredata.save (copy to .prev, write temp, flush, fsync, os.replace) / coredata.load', 'mesonlib.pickle_load (corrupt file -> MesonException)',
@@ -612,6 +613,9 @@ def obligations(tier):
                               labels=('killed', 'completed', 'loaded') + (('regenerated',) if c == 'first-setup' else ()), optional_labels=('regenerated',), max_paths=200000, path_timeout=120))
     out.append(Obligation('kill[wipe]', ob_kill_wipe(), dict(real='msetup.MesonApp.__init__ (validate_dirs, backup, read_cmd_line_file, removal, add_ignore_files, restore) on a scratch directory', kill_step='symbolic 1..40 (every mutating call)', kill_kind='SIGKILL (nothing runs afterwards) | SIGINT (finally clauses run)',
                           recovery='the same command again'), labels=('killed', 'completed'), classify=classify_wipe, max_paths=100000, path_timeout=120))
+    import harness.c08 as _c08; _c08.setup()          # the record of the command line is what --wipe and the recovery from an unreadable coredata.dat rebuild every option from
+    for n in (0, 1):
+        out.append(Obligation('recorded-values[%d]' % n, _c08.ob_cmdline_file(n), dict(real='cmdline.write_cmd_line_file / update_cmd_line_file / read_cmd_line_file (decided for C08 as well)', value_length=n, alphabet='a space = # newline [ % : ; tab', keys='opt, sub:o2, build.o3', then='nothing | update | delete'), labels=('done',), max_paths=3000000, classify=_c08.classify_cmdline))
     out.append(Obligation('failed-reconfigure', ob_failed_reconfigure(), dict(earlier_successful_saves='0..3', rollback='the except-branch of MesonApp._generate, mirrored'), labels=('first-setup', 'rolled-back')))
     out.append(Obligation('setup-command', ob_setup_command(), dict(real='msetup.MesonApp._generate', recorded='Interpreter, Build, build.save, backend, cmdline.*, mintro, os.replace/unlink/path.exists', failing_stage=STAGES, first_invocation='symbolic', prev_exists='symbolic'), labels=('completed', 'failed-before-dump', 'rolled-back')))
     out.append(Obligation('validate-dirs', ob_validate_dirs(), dict(real='msetup.MesonApp.validate_dirs / validate_core_dirs / add_ignore_files on a scratch directory', left_behind='0-3 ignore files (last possibly empty), meson-private / -logs / -info, coredata.dat', command='meson setup, --reconfigure iff configured'), labels=('empty', 'partial', 'configured')))
